@@ -112,10 +112,12 @@ def check(repo):
             kp, vp = st.params[1], st.params[2]
             stores = [n.id for n in Fs.cfg.nodes if n.id in Fs.ins and n.kind == "stmt" and isinstance(n.stmt, ast.Assign) and any(
                 isinstance(t, ast.Subscript) and unparse(t.value) == "self." + attr for t in n.stmt.targets)]
+            BT = ("typing.ByteString", "ByteString", "collections.abc.ByteString", "(bytes, bytearray)", "(bytearray, bytes)", "bytes")
             if r2.require(bool(refusals(Fs, isinstance_of(entry(vp), False), ("TypeError",))), st, "%s refuses non-bytes" % cname,
                           "%s.__setitem__ no longer refuses a non-bytes value with TypeError" % cname):
-                r2.require(bool(stores) and not unpermitted(Fs, stores, [isinstance_of(entry(vp), True)]), st, "%s type check precedes the store" % cname,
-                           "%s.__setitem__ stores before checking the type" % cname)
+                r2.require(bool(stores) and not unpermitted(Fs, stores, [isinstance_of(entry(vp), True, types=BT)]), st, "%s type check precedes the store" % cname,
+                           "%s.__setitem__ stores a value without having established that it is a byte string (bytes / bytearray): the check is missing on a path, comes after "
+                           "the store, or admits further types (a memoryview or str is not a byte string and breaks the stored contents)" % cname)
                 good = True
                 shown = []
                 for ps in summarize(st):
